@@ -54,7 +54,7 @@ MC = {
                 thorough=dict(depth=6, ops=["get", "set", "add", "replace", "append", "prepend", "incr", "decr", "flush", "delete"])),
     "C06": dict(keys=[K1], vals=["61", "6262", ""], flags=["0", "7"], ttls=[0, 1], cas=["0", "1"], ticks=[1],
                 ops=["get", "set", "add", "replace", "append", "prepend", "delete", "flush"], depth=4,
-                thorough=dict(depth=5, keys=[K1, K2])),
+                thorough=dict(depth=5, keys=[K1, K2], vals=["61", ""])),
     "C07": dict(keys=[K1], vals=["30", "39", "78", "2b31", "", "3130", "303039"], flags=["0", "7"], ttls=[0, 1], cas=["0", "2"],
                 deltas=["0", "1", "9"], inits=["0", "9"], ticks=[1],
                 ops=["get", "set", "incr", "decr"], depth=3,
